@@ -247,6 +247,14 @@ class Traced(collections.abc.Coroutine):
         return self.send(None)
 
 
+MAX_BLOCKS = 6000            # a scripted session of the unchanged clients has a few hundred event-loop steps
+MAX_BLOCK_EVENTS = 20000
+
+
+class SessionOverflow(BaseException):
+    """raised out of the instrumentation to abort a session that produces an unbounded number of steps"""
+
+
 class Tracer:
     def __init__(self):
         self.blocks = []          # finished blocks
@@ -271,6 +279,9 @@ class Tracer:
 
     def ev(self, *e):
         if self.cur is not None:
+            if len(self.cur["ev"]) >= MAX_BLOCK_EVENTS:      # a runaway block: keep the session's memory bounded
+                self.cur["overflow"] = True
+                return
             self.cur["ev"].append(list(e))
 
     def snap(self, finishing=None):
@@ -308,6 +319,9 @@ class Tracer:
         b["snap"] = self.snap(finishing=(outcome != "susp"))
         self.blocks.append(b)
         self._count(b)
+        if len(self.blocks) > MAX_BLOCKS:
+            raise SessionOverflow(f"more than {MAX_BLOCKS} event-loop steps in one scripted session (virtual time "
+                                  f"{self.loop.time():.1f} s): the client does not settle")
 
     def env(self, what, reader, n=0, data=None):
         """peer behaviour on the client's CURRENT reader (others are ignored: their connection is dead)"""
